@@ -185,8 +185,8 @@ Proof.
   - destruct (memb o (inflight st)); [discriminate|].
     destruct (get st o) as [ob|] eqn:G; [|injection W as <-; contradiction].
     assert (Hs : sel_obj SModelRec (okind ob) = false) by (destruct (okind ob); reflexivity).
-    rewrite Hs in W. injection W as <-. apply in_app_or in Hin as [Hin|Hin].
-    + destruct (sel_also SModelRec (okind ob)); [|contradiction]. destruct Hin as [<-|[]].
+    try rewrite Hs in W. injection W as <-. apply in_app_or in Hin as [Hin|Hin].
+    + destruct (okind ob); simpl in Hin; try contradiction. destruct Hin as [<-|[]].
       exists o. split; auto. apply Reach_refl.
     + destruct (walk_list_in _ _ _ Hin) as (k & v & items & p & I1 & I2 & I3).
       destruct v as [pp|cc|c].
@@ -243,7 +243,7 @@ Section Local.
   Lemma kind_of_local : forall c, agree st st' c -> kind_of st' c = kind_of st c.
   Proof.
     intros c A. unfold kind_of, view. destruct (get st c) as [cb|] eqn:G.
-    - destruct (agree_get _ _ _ _ A G) as (cb' & G' & K & At). now rewrite G', K, At.
+    - destruct (agree_get _ _ _ _ A G) as (cb' & G' & K & At). rewrite G'. simpl. now rewrite K.
     - now rewrite (agree_none _ _ _ A G).
   Qed.
 
